@@ -267,19 +267,28 @@ func Run(cfg Config, gen func(r *Rng, i int) []string, exec func(ops []string, o
 	o := OpenOut(cfg.OutDir)
 	defer o.Close()
 	if cfg.Replay != "" {
+		cur := filepath.Join(cfg.OutDir, "current_case.ops")
 		for i, c := range ReadCases(cfg.Replay) {
+			os.WriteFile(cur, []byte(fmt.Sprintf("# case %d\n%s\n", i, strings.Join(c, "\n"))), 0o644)
 			o.BeginCase(i)
 			exec(c, o)
 		}
+		os.Remove(cur)
 		return
 	}
 	root := NewRng(cfg.Seed)
+	cur := filepath.Join(cfg.OutDir, "current_case.ops")
 	for i := 0; i < cfg.N; i++ {
 		r := root.Fork()
 		ops := gen(r, i)
+		// Leave the case about to run on disk: if the real code kills the process
+		// (a panic in a goroutine without recover, a fatal runtime error) or hangs,
+		// the orchestrator reports this case as the failing input.
+		os.WriteFile(cur, []byte(fmt.Sprintf("# case %d\n%s\n", i, strings.Join(ops, "\n"))), 0o644)
 		o.BeginCase(i)
 		exec(ops, o)
 	}
+	os.Remove(cur)
 }
 
 // ReadCases reads an ops file; lines starting with "# case" separate cases,
